@@ -168,14 +168,15 @@ class LazyEvaluatedKernelTensor(LinearOperator):
             # Now we know that x1 and x2 are slices
             # Let's make sure that the slice dimensions perfectly correspond with the number of
             # outputs per input that we have
+            # NB: a bound of 0 is a bound (`start or 0` / `stop or size` would read `[:0]` as `[:]`)
             row_start, row_end, row_step = (
-                row_index.start or 0,
-                row_index.stop or self.shape[-2],
+                0 if row_index.start is None else row_index.start,
+                self.shape[-2] if row_index.stop is None else row_index.stop,
                 row_index.step,
             )
             col_start, col_end, col_step = (
-                col_index.start or 0,
-                col_index.stop or self.shape[-1],
+                0 if col_index.start is None else col_index.start,
+                self.shape[-1] if col_index.stop is None else col_index.stop,
                 col_index.step,
             )
             if row_step is not None or col_step is not None:
